@@ -288,6 +288,10 @@ fn solve_k(t: &Tree, par: &Value, budget: u64, threads: usize) -> Result<Solved,
 /// any method; the sampled ones with the draws pinned to a pure function of (site, infoset, pass), so that two
 /// presentations with the same infoset numbering follow the same sample
 fn solve_m(t: &Tree, par: &Value, budget: u64, threads: usize, meth: &str, draw_seed: u64) -> Result<Solved, String> {
+    solve_r(t, par, budget, threads, meth, draw_seed, 0.0)
+}
+
+fn solve_r(t: &Tree, par: &Value, budget: u64, threads: usize, meth: &str, draw_seed: u64, max_reg: f64) -> Result<Solved, String> {
     let meth = meth.to_string();
     let t2 = t.clone();
     let par = par.clone();
@@ -298,7 +302,7 @@ fn solve_m(t: &Tree, par: &Value, budget: u64, threads: usize, meth: &str, draw_
         if meth != "Full" {
             verif::set_draw_seed(Some(draw_seed));
         }
-        let res = game.solve(cfr::method(&meth), budget, 0.0, threads, Some(cfr::params(&par)));
+        let res = game.solve(cfr::method(&meth), budget, max_reg, threads, Some(cfr::params(&par)));
         verif::reset();
         let (strat, bound) = res.map_err(|e| format!("solve: {e:?}"))?;
         let dense = strat.verif_dense();
@@ -527,6 +531,28 @@ pub fn replay(args: &Args) {
                     }
                     (x, y) => bad.push(json!({"class": "panic", "what": "solve failed or panicked", "run": format!("{name} T={b} two threads"),
                         "original": x.err(), "transformed": y.err()})),
+                }
+            }
+        }
+        // ---- the same relation when the run is ended by a regret threshold: both presentations must stop after the same
+        // iteration (the threshold is in the units of the presentation; it lies well inside the range the bounds cross)
+        {
+            let (mut ha, mut hb) = (t.clone(), t2.clone());
+            genericise(&mut ha, &mut hb, kind, c, &mut rng);
+            let name = PRESETS[(id as usize + 3) % 5];
+            let par = cfr::preset(name);
+            if let Ok(x0) = solve_k(&ha, &par, 10, 1) {
+                let r = 0.75 * f64::max(x0.bounds[0], x0.bounds[1]);
+                if r.is_finite() && r > 0.0 {
+                    let r2 = if kind == "scale" { r * c } else { r };
+                    match (solve_r(&ha, &par, 200, 1, "Full", 0, r), solve_r(&hb, &par, 200, 1, "Full", 0, r2)) {
+                        (Ok(x), Ok(y)) => {
+                            runs += 1;
+                            compare_solves(kind, c, &x, &y, 1e-9, &format!("{name} T<=200 threshold {r}"), &mut bad);
+                        }
+                        (x, y) => bad.push(json!({"class": "panic", "what": "solve failed or panicked", "run": format!("{name} threshold {r}"),
+                            "original": x.err(), "transformed": y.err()})),
+                    }
                 }
             }
         }
